@@ -293,10 +293,56 @@ class SymEngine:
             v = self.P.fold(t[1].module, t[1].class_attrs[e.attr])
             if v is not UNKNOWN:
                 return self._const_term(v)
-        # caught exception attributes
+        if b[0] == "call" and b[1].startswith("ctor:"):
+            v = self.ctor_field(b, e.attr)
+            if v is not None:
+                return v
         return ("attr", b, e.attr)
 
+    def ctor_field(self, bt, attr):
+        """FieldConst: value `__init__` gives to self.<attr> for a constructor term,
+        when every feasible path of the constructor assigns the same term."""
+        key = (bt, attr)
+        memo = self.__dict__.setdefault("_ctor_memo", {})
+        if key in memo:
+            return memo[key]
+        memo[key] = None
+        cls = self.P.classes.get(bt[1][5:])
+        init = cls.methods.get("__init__") if cls else None
+        if init is None:
+            return None
+        st = State()
+        params = list(init.params)
+        st.env[params[0]] = ("newobj", cls.qual)
+        params = params[1:]
+        for pn, a in zip(params, bt[2]):
+            if a[0] == "star":
+                return None
+            st.env[pn] = a
+        for k, v in bt[3]:
+            if k is None:
+                return None
+            st.env[k] = v
+        for pn, d in init.defaults().items():
+            if pn not in st.env:
+                v = self.P.fold(init.module, d)
+                st.env[pn] = self._const_term(v) if v is not UNKNOWN else unk("default")
+        vals = set()
+        for p in self.ctx.X.paths(init):
+            if p.exit[0] == "raise":
+                continue
+            for s in self.run(init, p, init=st):
+                v = s.attrs.get("%s.%s" % (init.params[0], attr))
+                if v is None:
+                    return None
+                vals.add(v)
+        if len(vals) == 1:
+            memo[key] = next(iter(vals))
+        return memo[key]
+
     def _e_Tuple(self, e, f, st):
+        if not e.elts:
+            return C(())
         return ("tuple", tuple(self.ev(x, f, st) for x in e.elts))
 
     def _e_List(self, e, f, st):
